@@ -99,12 +99,18 @@ func (c *Chain) onEpochBoundary(ended common.Epoch) {
 		c.Stats.Inc("epochs_justification_advanced")
 	}
 	c.lastFin, c.lastJust = fin, just
+	c.justified[just.Epoch] = true
+	if pj, err := st.PreviousJustifiedCheckpoint(); err == nil {
+		c.justified[pj.Epoch] = true
+	}
 	// leak (as of the transition that ended `cur-1`)
 	prev := (cur - 1).Previous()
 	if prev > fin.Epoch && prev-fin.Epoch > sp.MIN_EPOCHS_TO_INACTIVITY_PENALTY {
+		// the fork whose epoch processing applied the leak: the one of the epoch that ended
+		lf := c.forkAtEpoch(cur - 1)
 		c.Stats.Inc("epochs_in_leak")
-		c.Stats.Inc("epochs_in_leak_" + StateFork(st).String())
-		c.leakForks[StateFork(st)] = true
+		c.Stats.Inc("epochs_in_leak_" + lf.String())
+		c.leakForks[lf] = true
 	}
 	ejected, activated, penalised := 0, 0, 0
 	var maxExit common.Epoch
@@ -175,4 +181,19 @@ func (c *Chain) onEpochBoundary(ended common.Epoch) {
 		c.lastNextSync = r
 	}
 	c.noteState(st)
+}
+
+func (c *Chain) forkAtEpoch(e common.Epoch) ForkID {
+	sp := c.Spec
+	switch {
+	case e >= sp.DENEB_FORK_EPOCH:
+		return Deneb
+	case e >= sp.CAPELLA_FORK_EPOCH:
+		return Capella
+	case e >= sp.BELLATRIX_FORK_EPOCH:
+		return Bellatrix
+	case e >= sp.ALTAIR_FORK_EPOCH:
+		return Altair
+	}
+	return Phase0
 }
